@@ -16,22 +16,33 @@ def gen_request(rng, F, flavor):
     elif r < 0.75:
         path = rng.choice(leaves) + "/x"
     elif r < 0.85:
-        path = "/" + rng.choice(["nope", "", "0", "arr/9", "l9", "inner/y"])
+        path = "/" + rng.choice(["nope", "", "0", "arr/9", "l9", "inner/y", "lut/12", "lut/01", "lut/21", "trip/0"])
     elif r < 0.9:
         path = rng.choice(["foo", "x/y", "bar"])           # no leading slash: everything before the first '/' is ignored
     else:
         path = None                                           # foreign topic
+    # foreign topics, among them one whose head has exactly the length of the client's own prefix and that continues
+    # with "/settings<valid leaf path>" (a sibling device id)
+    sibling = PREFIX[:-1] + ("w" if PREFIX[-1] != "w" else "x") + "/settings" + rng.choice(leaves)
     topic = (PREFIX + "/settings" + path) if path is not None else rng.choice(
-        [PREFIX + "/other/x", "zz/settings/foo", PREFIX + "/alive", PREFIX + "/setting"])
+        [PREFIX + "/other/x", "zz/settings/foo", PREFIX + "/alive", PREFIX + "/setting", sibling, sibling])
     kind = rng.random()
     if kind < 0.45:
         payload = ""
     else:
-        ty = F.types.get(path)
+        ty = F.types.get(path if path is not None else topic[len(PREFIX + "/settings"):])
         good = {"bool": ["true", "false"], "u8": ["7", "255", "0", "100", "101", "200"], "u16": ["65535", "12"],
                 "u32": ["4294967295", "5"], "i32": ["-5", "2147483647"],
-                "hstr64": ['"abc"', '"' + "x" * 60 + '"', '"' + "y" * 64 + '"']}.get(ty, ["1"])
-        bad = ['"str"', "-1", "256", "nul", "{", "1 x", "", "[1]", "99999999999", '"' + "z" * 65 + '"', " 7 ", "1e9"]
+                "hstr64": ['"abc"', '"' + "x" * 60 + '"', '"' + "y" * 64 + '"'],
+                "hstr256": ['"abc"', '"' + "x" * 150 + '"', '"' + "y" * 256 + '"', '"' + "w" * 129 + '"'],
+                "arr3i16": ["[1,2,3]", "[-5,0,32767]", " [ 7 , 8 , 9 ] ", "[-32768,1,1]"]}.get(ty, ["1"])
+        bad = ['"str"', "-1", "256", "nul", "{", "1 x", "", "[1]", "99999999999", '"' + "z" * 65 + '"', " 7 ", "1e9",
+               # payloads whose first part parses and which fail later (a non-atomic write would leave a compound leaf half-updated)
+               '[10,20,"x"]', "[10,20]", "[10,20,30", "[10,20,99999]", "[10,20,30,40]", '"' + "z" * 257 + '"']
+        late = {"arr3i16": ['[10,20,"x"]', "[10,20]", "[10,20,30", "[10,20,99999]", "[10,20,30,40]"],
+                "hstr256": ['"' + "z" * 257 + '"', '"abc'], "hstr64": ['"' + "z" * 65 + '"', '"abc']}.get(ty)
+        if late and rng.random() < 0.5:
+            bad = late
         payload = rng.choice(good) if rng.random() < 0.7 else rng.choice(bad)
         if payload == "":
             payload = "0"
@@ -63,6 +74,10 @@ def gen_history(rng, fam, flavor, length):
     ev += [f"un{rng.choice([6, 7, 8, 10])}"]
     if flavor == "faults" and rng.random() < 0.3:
         ev += [f"adv{rng.choice([500, 1999])}", f"un{rng.randrange(1, 5)}"]
+    if rng.random() < 0.25:
+        ev += ["prop1"]     # requests carry their properties in the other order (correlation data before response topic)
+    if flavor == "dump" and fam == 3 and rng.random() < 0.7:
+        ev += [f"set:{cp('/text')}:{cp(chr(34) + 'n' * rng.choice([10, 130, 200, 256]) + chr(34))}"]
     if flavor == "dump" and fam == 1 and rng.random() < 0.6:
         ev += [f"set:{cp('/inner/name')}:{cp(chr(34) + 'n' * rng.choice([10, 40, 60, 64]) + chr(34))}"]
         if rng.random() < 0.5:
@@ -75,6 +90,10 @@ def gen_history(rng, fam, flavor, length):
             rt = rng.choice([cp(RESP), cp(RESP), "-"])
             ev.append(f"pub:{cp(PREFIX + '/settings' + root)}:e:{rt}:{rng.randrange(256):02x}:0:0")
             ev.append(f"un{rng.choice([1, 1, 2])}")
+    if flavor == "faults" and rng.random() < 0.35:
+        # the link is lost while the initial dump is stalled half-way (acknowledgements withheld)
+        ev += [f"un{rng.choice([2, 3, 4])}", "auto0", f"un{rng.choice([2, 3, 5])}", rng.choice(["sess0", "sess1"]), "drop", "auto1",
+               f"un{rng.choice([6, 7, 9])}", f"adv{rng.choice([2000, 2600])}"]
     ev += [f"un{rng.choice([3, 12, 25, 40])}"]
     for _ in range(length):
         r = rng.random()
@@ -107,7 +126,9 @@ def gen_history(rng, fam, flavor, length):
         elif r < 0.74:
             p, ty = rng.choice(F.leaves)
             v = {"bool": "true", "u8": str(rng.randrange(256)), "u16": "9", "u32": "77", "i32": "-3",
-                 "hstr64": '"' + "q" * rng.choice([0, 5, 60]) + '"'}[ty]
+                 "hstr64": '"' + "q" * rng.choice([0, 5, 60]) + '"',
+                 "hstr256": '"' + "q" * rng.choice([0, 5, 60, 140, 250]) + '"',
+                 "arr3i16": f"[{rng.randrange(-9, 9)},{rng.randrange(-300, 300)},3]"}[ty]
             ev.append(f"set:{cp(p)}:{cp(v)}")
         elif r < 0.8 and fam == 1:
             ev.append(rng.choice(["optnone", f"optsome{rng.randrange(256)}"]))
@@ -130,7 +151,7 @@ def gen_history(rng, fam, flavor, length):
 
 # ------------------------------------------------------------------------------- oracles
 
-def analyze(events, recs, fam):
+def analyze(events, recs, fam, bufsize=0):
     """walk a history and its trace; returns dict property -> list of failure strings, and stats.
     Everything here is computed from the packet log / hook trace and the independent settings
     simulator `Fam`; nothing from the Lean model."""
@@ -139,6 +160,7 @@ def analyze(events, recs, fam):
     stats = {"requests": 0, "sets_ok": 0, "lists": 0, "dumps": 0, "epochs": 0, "busy": 0, "gets": 0, "errors": 0}
     ri = 0
     pending = []          # requests on the wire to the client
+    last_st = None        # protocol state after the most recent update()
     epoch = None
     mp = None             # the multipart answer in progress: {'kind','expect','i','rt','cd'}
     lost = False
@@ -181,9 +203,15 @@ def analyze(events, recs, fam):
                     fails["C13"].append(f"dump item {leaf} before the subscription of this connection")
                 if p["topic"] != PREFIX + "/settings" + leaf or p["cd"] != (mp["cd"] or "-") or p["rt"] != "-":
                     fails["C10"].append(f"dump published {p['topic']} (cd {p['cd']}) where leaf {leaf} is due (order / skip / repeat)")
+                    if mp.get("initial"):
+                        fails["C13"].append(f"the unrequested dump of this connection is not one full dump of the settings: it "
+                                            f"published {p['topic']} where leaf {leaf} is due at t={now}")
                 elif p["code"] == "Error":
                     if p["payload"] != TOO_LARGE:
                         fails["C10"].append(f"dump of {leaf}: unexpected error payload {p['payload']!r}")
+                    elif bufsize >= 2048 and len(F.json(leaf).encode()) <= 300:
+                        fails["C10"].append(f"dump of {leaf}: reported as too large although its value ({len(F.json(leaf))} bytes) "
+                                            f"fits the transmit buffer of a {bufsize}-byte client")
                 elif p["code"] != "Ok" or p["payload"] != F.json(leaf):
                     fails["C10"].append(f"dump of {leaf}: payload {p['payload']!r} code {p['code']}, the value at that time is {F.json(leaf)}")
             else:
@@ -244,6 +272,7 @@ def analyze(events, recs, fam):
                 # Init -> Multipart starts the one unrequested full dump of this epoch
                 if st0 == "init" and r["st"] in ("multipart", "single"):
                     mp = start_dump("")
+                    mp["initial"] = True
                     if epoch is not None:
                         if epoch["dumped"]:
                             fails["C13"].append("second unrequested full dump in one connection")
@@ -276,9 +305,18 @@ def analyze(events, recs, fam):
                             reply_expected = req["rt"] is not None
                         else:
                             reply_expected = "maybe"    # refused (busy / too long) => a reply, accepted => none
+                # how many publications the state-machine arm itself can account for in this update: one per granted slot,
+                # but no more than what is left of the multipart answer in progress (a dump skips absent leaves silently
+                # and its last slot only concludes the walk)
+                if st0 != "multipart" or mp is None:
+                    arm_cap = 0
+                elif mp["kind"] == "dump":
+                    arm_cap = min(slots, sum(1 for l in mp["expect"][mp["i"]:] if F.present(l)))
+                else:
+                    arm_cap = min(slots, len(mp["expect"]) - mp["i"] + 1)
                 if reply_expected is True or (reply_expected == "maybe" and req["rt"] is not None and pubs
                                               and pubs[-1]["code"] == "Error" and pubs[-1]["topic"] == req["rt"]
-                                              and slots < len(pubs) + (0 if mp else 1)):
+                                              and len(pubs) > arm_cap):
                     arm_pubs, tail = pubs[:-1], pubs[-1:]
                 else:
                     arm_pubs, tail = pubs, []
@@ -359,6 +397,7 @@ def analyze(events, recs, fam):
                     epoch = new_epoch()
                 if not conn:
                     lost = False
+                last_st = r["st"]
             continue
         if ev.startswith("pub:"):
             f = ev[4:].split(":")
@@ -374,6 +413,11 @@ def analyze(events, recs, fam):
                     fails["C10"].append(f"dump({root!r}) accepted for an invalid path")
                 else:
                     mp = start_dump(c[1] if c[0] != "err" else "/opt")
+                    if last_st == "init" and epoch is not None:
+                        # the application called dump() in the one update between the timeout and the start of the
+                        # initial dump: `Init + Multipart` takes its dump in place of the unrequested one (the properties
+                        # quantify the start-up sequence over histories without API dumps; C10 holds for this dump)
+                        epoch["dumped"] = True
         elif ev.startswith("set:"):
             next_rec()
             _, p, j = ev.split(":")
@@ -393,7 +437,7 @@ def analyze(events, recs, fam):
     end = [r for r in recs if r["k"] == "END"]
     if end and "settings" in end[-1]:
         want = ",".join(f"{p}={F.json(p) if F.present(p) else 'absent'}" for p, _ in F.leaves)
-        got = end[-1]["settings"].replace("%22", '"')
+        got = end[-1]["settings"].replace("%22", '"').replace("%2C", ",")
         if got != want:
             fails["C14"].append(f"final settings {got} but the accepted writes give {want}")
     return fails, stats
@@ -412,7 +456,7 @@ def run_mqtt(rep, prop_id, rng, tier):
     n_hist = 120 if tier == "quick" else 3000
     hist = []
     for i in range(n_hist):
-        fam = rng.choice([0, 1, 1, 2])
+        fam = rng.choice([0, 1, 1, 2, 3, 3])
         flavor = rng.choice(FLAVORS[prop_id])
         bufsize, ev = gen_history(rng, fam, flavor, rng.randrange(3, 14))
         hist.append((fam, flavor, bufsize, ev))
@@ -424,7 +468,7 @@ def run_mqtt(rep, prop_id, rng, tier):
     rc, impl, err = run_lines(harness_bin("dev"), lines)
     dok, dmsg = build_driver()
     mlines = []
-    for fam in (0, 1, 2):
+    for fam in (0, 1, 2, 3):
         mlines.append(f"V vm{fam} 1000 {fam} {Fam(fam).tree_text()}")
     parsed = {}
     totals = {}
@@ -447,7 +491,7 @@ def run_mqtt(rep, prop_id, rng, tier):
             continue
         try:
             recs = parse_trace(out)
-            fails, stats = analyze(ev, recs, fam)
+            fails, stats = analyze(ev, recs, fam, bufsize)
             items, exp = model_items(ev, recs, fam)
         except Exception as e:  # an unparsable trace is a broken check, reported as such
             rep.violation("proof", {"what": f"trace analysis crashed: {type(e).__name__}: {e}", "case": case}, no_input=True)
@@ -489,7 +533,7 @@ def run_mqtt(rep, prop_id, rng, tier):
         "theorems": pl["theorems"],
         "evaluations": len(hist),
         "distinct_nontrivial": len(distinct),
-        "rule": "random histories over 3 settings families: update() calls, clock advances, Get/Set/List/Dump requests (valid, "
+        "rule": "random histories over 4 settings families: update() calls, clock advances, Get/Set/List/Dump requests (valid, "
                 "invalid, too-long and foreign topics; valid/malformed JSON; with/without response topic and correlation data; "
                 "lengths around 128/32), API dump/reset, direct settings writes, Option toggles, withheld PUBACKs, connection "
                 "drops with session present/absent; distinct = (family, flavor, capped counts of requests/sets/lists/dumps/"
